@@ -34,7 +34,7 @@ package archiver
 //@   sweep idx slice div assert
 //@   attr proved to-eof,closes,closes-range
 //@   opaque
-//@   modifies models.URL::*, eofs, closes
+//@   modifies models.URL::*, eofs, closes, drains
 //@   local spooled int = 0
 //@   after NewSpooledTempFile(?)#1: spooled = 1
 //@   ensures [closes-range] @C16 io.nCloses() >= old(io.nCloses()) + 1 && io.nCloses() <= old(io.nCloses()) + 2 // (what callers see of [closes]: the response body is closed exactly once, at most one more Close for the spool file)
@@ -51,6 +51,7 @@ package archiver
 //@   loop retry invariant [own-request] @C05 http.reqTarget(req) == http.reqTarget(old(item.url.request))
 //@   ensures [sent-own] @C05 http.lastSentTarget() == http.reqTarget(old(item.url.request)) // C05: the only request sent for a node is the one the preprocessor attached to it
 //@   loop retry invariant [bodies-closed] @C16 http.nOpened() - io.nCloses() == old(http.nOpened() - io.nCloses()) // C16: retry paths drain and close response bodies
+//@   loop retry invariant [retry-drained] @C02 io.nDrains() - http.nOpened() == old(io.nDrains() - http.nOpened()) // C02: every response the crawler fetched is stored with a payload byte-identical to what the server sent (a response that is retried or given up on is still read to its end - io.Copy to io.Discard - before its body is closed, so the WARC writer sees the complete exchange)
 //@   ensures [one-body-left] @C16 http.nOpened() - io.nCloses() <= old(http.nOpened() - io.nCloses()) // C16: no response body remains open: every response handed out during the fetch has been closed when the fetch returns (the accepted one by ProcessBody once it is copied)
 //@   local waitedHost string = ""
 //@   local didWait int = 0
@@ -63,8 +64,25 @@ package archiver
 //@   after SetStatus(item)#1: gaveUp = 1
 //@   after SetStatus(item)#2: gaveUp = 1
 //@   ensures [giveup-closed] @C16 gaveUp == 1 ==> http.nOpened() - io.nCloses() == old(http.nOpened() - io.nCloses()) // C16: a fetch that gives up (request error or bad answers until the retries are used up) leaves no response body open
+//@   ensures [giveup-drained] @C02 gaveUp == 1 ==> io.nDrains() - http.nOpened() == old(io.nDrains() - http.nOpened()) // C02: every response the crawler fetched is stored complete (the last bad answer of a fetch that gives up is read to its end before its body is closed)
+//@   attr own-var @C02 feedbackChan
+//@   local attached chan struct{} = nil
+//@   local sentWith chan struct{} = nil
+//@   assert WithValue(*): [attaches-own] @C02 istype(arg2, chan struct{}) && unbox(arg2, chan struct{}) == feedbackChan && istype(arg1, string) && unbox(arg1, string) == "feedback" // C02: feedback channel in request context (the channel this fetch will wait on is the one put into its request's context under the key the WARC writer looks up)
+//@   after WithValue(*): attached = feedbackChan
+//@   after Do(*): sentWith = attached
+//@   assert recv(feedbackChan)#1: [waits-own] @C02 feedbackChan == sentWith && feedbackChan != nil // C02: archive() blocks on the feedback channel before SetStatus(ItemArchived) (the channel carried by the request that was actually sent)
 //@   local fbWaited int = 0
 //@   after recv(feedbackChan)#1: fbWaited = 1
 //@   assert SetStatus(item)#4: [after-feedback] @C02 config.config.WARCWriteAsync || fbWaited == 1 // C02: with synchronous WARC writing the URL is marked archived only after the WARC writer signalled that the records are written
 //@   ensures [retry-bound] attempts <= old(attempts) + old(config.config.MaxRetry) + 1 // C06: each URL is attempted at most --max-retry + 1 times per visit
 //@   ensures [attempted] attempts >= old(attempts) + 1
+
+// ---------------------------------------------------------------------------------------
+// startWARCWriter: both WARC-writing clients are built with the discard hook chain.
+
+//@ func startWARCWriter
+//@   property C02
+//@   attr assert-all NewWARCWritingHTTPClient
+//@   assert Build(*): [default-chain] @C02 arg0 != nil && len(arg0.hooks) == 2 && arg0.hooks[0] == cloudflare.ChallengePageHook && arg0.hooks[1] == warcdiscardstatus.WARCDiscardStatusHook // C02: discard hook chain built from cloudflare + warc-discard-status hooks
+//@   assert NewWARCWritingHTTPClient(*): [discard-hook] @C02 arg0.DiscardHook != nil // C02: discard hook chain built from cloudflare + warc-discard-status hooks (every WARC-writing client is created with it)
